@@ -408,6 +408,4 @@ class XPathFunction(XPathToken):
             if isinstance(item, list):
                 yield from item
             else:
-                if context is not None:
-                    context.item = item
-                yield item
+                yield item  # the result is a value: the focus of the caller's context is not moved onto it
